@@ -37,5 +37,13 @@ GzCases == { [cls |-> "gzip", in |-> [kind |-> "gzip", size |-> n],
                          ELSE IF n = Limit THEN [within |-> TRUE] ELSE [decode_ok |-> FALSE, within |-> TRUE]] : n \in GzSizes }
            \cup { [cls |-> "gzip", in |-> [kind |-> "badgzip", how |-> h], expect |-> [decode_ok |-> FALSE, nopanic |-> TRUE]]
                   : h \in {"not_gzip", "cut_stream", "bad_crc", "wrong_id", "empty", "cut_bytes_header"} }
-ASSUME Dump == \A c \in ContCases \cup BadCases \cup ResCases \cup UnencCases \cup GzCases : PrintT(ToJson(c))
+\* a gzip stream is a concatenation of members; the bound is on everything that is inflated, whichever member it is in
+RECURSIVE SumSeq(_)
+SumSeq(q) == IF q = <<>> THEN 0 ELSE Head(q) + SumSeq(Tail(q))
+GzMembers == {<<4, 4>>, <<1000, MiB>>, <<0, 20>>, <<Limit - 8, 4>>, <<Limit + MiB, 1>>, <<1, Limit + MiB>>, <<6 * MiB, 6 * MiB>>,
+              <<4 * MiB, 4 * MiB, 4 * MiB>>, <<Limit + MiB, 1, 1>>}
+GzMultiCases == { [cls |-> "gzip", in |-> [kind |-> "gzipmulti", members |-> q],
+                   expect |-> IF SumSeq(q) < Limit THEN [decode_ok |-> TRUE, equal |-> TRUE, within |-> TRUE]
+                              ELSE [decode_ok |-> FALSE, within |-> TRUE]] : q \in GzMembers }
+ASSUME Dump == \A c \in ContCases \cup BadCases \cup ResCases \cup UnencCases \cup GzCases \cup GzMultiCases : PrintT(ToJson(c))
 =============================================================================
